@@ -68,6 +68,13 @@ Proof. exact net_move_index. Qed.
 Theorem C11_lanelet_translate_rotate_convert : forall W l m,
   LCoh W (fst (lstep W l (LMove W m))) /\ LCoh W (fst (lstep W l (LConv2d W))).
 Proof. exact lanelet_move_any. Qed.
+(* the public vertex setters of a lanelet (repaired by 5260073): whatever the lanelet had cached, afterwards it is
+   coherent, its cumulative distance is that of the new centre line and its polygon that of the new boundaries *)
+Theorem C11_lanelet_vertex_setters : forall W l v,
+  LCoh W (fst (lstep W l (LSetVerts W v))) /\
+  snd (lstep W (fst (lstep W l (LSetVerts W v))) (LQDist W)) = LRDists W (dist_of W v) /\
+  snd (lstep W (fst (lstep W l (LSetVerts W v))) (LQPoly W)) = LRRing W (poly_of W v).
+Proof. exact lanelet_set_verts_any. Qed.
 
 (* --- update_initial_state: the last max_history_length previous states, in order, equal lengths *)
 Theorem C11_history_lastn : forall W o cur sg cen shp m, (0 < m)%nat ->
@@ -142,3 +149,4 @@ Print Assumptions C11_nonvacuous_scenario.
 Print Assumptions C11_unrepaired_prediction_refuted.
 Print Assumptions C11_unrepaired_network_refuted.
 Print Assumptions C11_member_move_outside_domain.
+Print Assumptions C11_lanelet_vertex_setters.
